@@ -187,6 +187,19 @@ def run(ctx):
                 ctx.violation("C15:decode:covered-cells", "sheet 1 of %r (%s, every second cell covered): read %s, logical table %s" % (gd, feats, impl, want), {"doc": gd, "features": feats, "impl": impl})
             if impl != m:
                 ctx.violation("C15:model:covered-cells", "implementation %s, model %s" % (impl, m), {"doc": gd, "features": feats})
+        # ---- both at once: covered cells in rows that sit in row containers (implementation against the logical table) ------------------
+        for f, gd in group_cases:
+            tree = ods_enc.regroup(ods_enc.cover(ods_enc.encode_doc(f, gd)))
+            path = os.path.join(tmp, "case.ods")
+            ods_enc.write_ods(path, tree)
+            impl = impl_rows(path, 1)
+            os.remove(path)
+            want = "ok " + rows_str(gd[0])
+            feats = "+".join(n_ for n_ in FEATURES if f[n_]) or "plain"
+            ctx.count(key=("containers+covered", feats, repr(gd)), nontrivial=True, branch="containers+covered")
+            if impl != want:
+                ctx.violation("C15:decode:containers+covered", "sheet 1 of %r (%s, rows in containers, every second cell covered): read %s, logical table %s" % (gd, feats, impl, want),
+                              {"doc": gd, "features": feats, "impl": impl})
         # ---- fault paths --------------------------------------------------------------------------------------------
         tree = ods_enc.encode_doc({n_: False for n_ in FEATURES}, [[["a", "b"], ["c", "d"]]])
         good = os.path.join(tmp, "good.ods")
